@@ -42,6 +42,8 @@ def isqrt(x):
   x = _c(x)
   if isinstance(x, int):
     return int(gmpy2.isqrt(x))
+  if isinstance(x, (SReal, float)):
+    raise TypeError("isqrt() requires 'mpz' argument")
   e = eng()
   if isinstance(x, SInt):
     if e.decide(x.t < 0):
@@ -171,6 +173,18 @@ def invert(x, m):
     raise PathAbort('inconclusive: invert on SBits not modelled')
   xt = pysym._int_term(x)
   mt = pysym._int_term(m)
+  if isinstance(m, int) and m > 1 and gmpy2.is_prime(m):
+    # prime modulus: no inverse exactly when m | x
+    if e.decide(xt % m == 0):
+      raise ZeroDivisionError('invert() no inverse exists')
+
+    def make0():
+      w = e.fresh('inv')
+      q = e.fresh('inv_q')
+      e.assume(z3.And(w >= 0, w < m, w * xt == 1 + q * m))
+      return (w, xt, mt, q)
+
+    return SInt(_memo(_key('invert', xt, mt), make0)[0])
   if e.decide(mt == 0):
     raise ZeroDivisionError('invert() division by 0')
   # existence of the inverse is gcd(x, m) == 1; we model it with a fresh
